@@ -78,6 +78,7 @@ def typedValid (ty : String) (b : Bytes) : Option Bool :=
   | ["cnf.CNF"] => some (roundTrips decCNF encCNF b)
   | ["hierarchical.HierarchicalConjunctiveThreshold"] => some (roundTrips decHierarchical encHierarchical b)
   | ["boolexpr.ThresholdGateAccessStructure"] => some (roundTrips decBoolAS encBoolAS b)
+  | ["paillier.PublicKey"] => some (roundTrips decPaillierPK encPaillierPK b)
   | [name, cn] =>
     match byName? cn with
     | none => none
